@@ -148,6 +148,10 @@ func c20AlphaRollout(mask int) *Rollout {
 	r.Status.ObservedGeneration = verifrt.Int64("st.observedGeneration")
 	r.Status.Phase = RolloutPhase(verifrt.String("st.phase"))
 	r.Status.Message = verifrt.String("st.message")
+	if verifrt.Bool("st.hasCondition") {
+		r.Status.Conditions = []RolloutCondition{{Type: RolloutConditionType(verifrt.String("st.cond.type")), Status: "True",
+			Reason: verifrt.String("st.cond.reason"), Message: verifrt.String("st.cond.message")}}
+	}
 	if c20Choose(mask&(vBlocks|vMeta) != 0, "hasCanaryStatus") {
 		r.Status.CanaryStatus = &CanaryStatus{
 			ObservedWorkloadGeneration: verifrt.Int64("cs.owg"),
@@ -298,6 +302,11 @@ func c20RolloutAlphaRoundTrip(mask int) {
 	}
 	// status cursor
 	verifrt.Assert(src.Status.ObservedGeneration == back.Status.ObservedGeneration && src.Status.Phase == back.Status.Phase && src.Status.Message == back.Status.Message, "C20.rt.status.top")
+	verifrt.Assert(len(src.Status.Conditions) == len(back.Status.Conditions), "C20.rt.status.conditions.count")
+	if len(src.Status.Conditions) == 1 && len(back.Status.Conditions) == 1 {
+		a, b := src.Status.Conditions[0], back.Status.Conditions[0]
+		verifrt.Assert(verifrt.And(a.Type == b.Type, a.Status == b.Status, a.Reason == b.Reason, a.Message == b.Message), "C20.rt.status.conditions.value")
+	}
 	verifrt.Assert((src.Status.CanaryStatus == nil) == (back.Status.CanaryStatus == nil), "C20.rt.status.canary.presence")
 	if src.Status.CanaryStatus != nil && back.Status.CanaryStatus != nil {
 		verifrt.Assert(*src.Status.CanaryStatus == *back.Status.CanaryStatus, "C20.rt.status.canary.value")
@@ -394,6 +403,10 @@ func c20BetaRollout(varyBlocks bool, mask int) *v1beta1.Rollout {
 	r.Status.ObservedGeneration = verifrt.Int64("st.observedGeneration")
 	r.Status.Phase = v1beta1.RolloutPhase(verifrt.String("st.phase"))
 	r.Status.Message = verifrt.String("st.message")
+	if verifrt.Bool("st.hasCondition") {
+		r.Status.Conditions = []v1beta1.RolloutCondition{{Type: v1beta1.RolloutConditionType(verifrt.String("st.cond.type")), Status: "True",
+			Reason: verifrt.String("st.cond.reason"), Message: verifrt.String("st.cond.message")}}
+	}
 	if c20Choose(varyBlocks || mask&vMeta != 0, "hasCanaryStatus") {
 		r.Status.CanaryStatus = &v1beta1.CanaryStatus{}
 		cs := r.Status.CanaryStatus
@@ -521,6 +534,11 @@ func c20RolloutBetaRoundTrip(mask int) {
 		verifrt.Assert(len(bc.PatchPodTemplateMetadata.Labels) == len(sc.PatchPodTemplateMetadata.Labels) && len(bc.PatchPodTemplateMetadata.Annotations) == len(sc.PatchPodTemplateMetadata.Annotations), "C20.brt.patchMeta.noextra")
 	}
 	verifrt.Assert(src.Status.ObservedGeneration == back.Status.ObservedGeneration && src.Status.Phase == back.Status.Phase && src.Status.Message == back.Status.Message, "C20.brt.status.top")
+	verifrt.Assert(len(src.Status.Conditions) == len(back.Status.Conditions), "C20.brt.status.conditions.count")
+	if len(src.Status.Conditions) == 1 && len(back.Status.Conditions) == 1 {
+		a, b := src.Status.Conditions[0], back.Status.Conditions[0]
+		verifrt.Assert(verifrt.And(a.Type == b.Type, a.Status == b.Status, a.Reason == b.Reason, a.Message == b.Message), "C20.brt.status.conditions.value")
+	}
 	verifrt.Assert((src.Status.CanaryStatus == nil) == (back.Status.CanaryStatus == nil), "C20.brt.status.canary.presence")
 	if src.Status.CanaryStatus != nil && back.Status.CanaryStatus != nil {
 		verifrt.Assert(*src.Status.CanaryStatus == *back.Status.CanaryStatus, "C20.brt.status.canary.value")
